@@ -39,6 +39,14 @@
                                   included, every prefix of a namespace) whose namespace is reported
                                   unresolved; each prefix once
     C09_inherited_iff             … = bindings of the parent's scope that some name of the subtree needs
+    C09_fullname_element_real     GUARD-FREE, element name in a real namespace: Ok(prefix) resolves back to the
+                                  expanded name; Ok(_) iff some prefix (default included) is bound to the
+                                  namespace; otherwise exactly MissingPrefix(ns)
+    C09_fullname_element_iff      elements, exact boundary: an Ok answer is wrong iff the name is in no namespace
+                                  and a default namespace is in scope
+    C09_fullname_attribute_iff    attributes, exact boundary: an Ok answer is wrong iff the name is in a real
+                                  namespace and the EMPTY prefix is reported; C09_fullname_attribute_guard_not_needed:
+                                  the guard of _attribute_partial is sufficient, not necessary (closed witness)
 -/
 import XotModel.Lemmas.Scope
 import XotModel.Lemmas.ScopeStack
@@ -303,51 +311,8 @@ theorem C09_unresolved_element (env : Env) (s : FStack) (frames : List (List (Na
       (env.nsOfName name = ns ∧ ns ≠ Env.noNamespace ∧ ns ≠ Env.xmlNamespace ∧
         ∀ p, scopeOf frames p ≠ some ns) ∨
       (∃ a ∈ t.attrs.map (·.1), env.nsOfName a = ns ∧ ns ≠ Env.noNamespace ∧
-        ns ≠ Env.xmlNamespace ∧ ∀ p, p ≠ Env.emptyPrefix → scopeOf frames p ≠ some ns) := by
-  have hk : ∀ n, knownIn s.top n = false ↔ ∀ p, scopeOf frames p ≠ some n := by
-    intro n
-    rw [Bool.eq_false_iff, Ne, knownIn_iff]
-    constructor
-    · intro hne p hp; exact hne ⟨p, (h.mem p n).2 hp⟩
-    · rintro hall ⟨p, hp⟩; exact hall p ((h.mem p n).1 hp)
-  have ha : ∀ n, attrKnownIn s.top n = false ↔ ∀ p, p ≠ Env.emptyPrefix → scopeOf frames p ≠ some n := by
-    intro n
-    rw [Bool.eq_false_iff, Ne, attrKnownIn_iff]
-    constructor
-    · intro hne p hp0 hp; exact hne ⟨p, hp0, (h.mem p n).2 hp⟩
-    · rintro hall ⟨p, hp0, hp⟩; exact hall p hp0 ((h.mem p n).1 hp)
-  simp only [unresolvedOfElement, List.mem_append, List.mem_filterMap, elementPrefix_ok,
-    attributePrefix_ok]
-  constructor
-  · rintro (h1 | ⟨a, hmem, h1⟩)
-    · left
-      by_cases hc : (env.nsOfName name == Env.noNamespace || env.nsOfName name == Env.xmlNamespace ||
-          knownIn s.top (env.nsOfName name)) = true
-      · simp [hc] at h1
-      · simp only [hc, Bool.not_false, ↓reduceIte, List.mem_singleton] at h1
-        subst h1
-        simp only [Bool.or_eq_true, beq_iff_eq, not_or, Bool.not_eq_true] at hc
-        exact ⟨rfl, hc.1.1, hc.1.2, (hk _).1 hc.2⟩
-    · right
-      by_cases hc : (env.nsOfName a == Env.noNamespace || env.nsOfName a == Env.xmlNamespace ||
-          attrKnownIn s.top (env.nsOfName a)) = true
-      · simp [hc] at h1
-      · simp only [hc, Bool.not_false, ↓reduceIte, Option.some.injEq] at h1
-        subst h1
-        simp only [Bool.or_eq_true, beq_iff_eq, not_or, Bool.not_eq_true] at hc
-        exact ⟨a, hmem, rfl, hc.1.1, hc.1.2, (ha _).1 hc.2⟩
-  · rintro (⟨rfl, h0, h1, h2⟩ | ⟨a, hmem, rfl, h0, h1, h2⟩)
-    · left
-      have : (env.nsOfName name == Env.noNamespace || env.nsOfName name == Env.xmlNamespace ||
-          knownIn s.top (env.nsOfName name)) = false := by
-        simp [h0, h1, (hk _).2 h2]
-      simp [this]
-    · right
-      refine ⟨a, hmem, ?_⟩
-      have : (env.nsOfName a == Env.noNamespace || env.nsOfName a == Env.xmlNamespace ||
-          attrKnownIn s.top (env.nsOfName a)) = false := by
-        simp [h0, h1, (ha _).2 h2]
-      simp [this]
+        ns ≠ Env.xmlNamespace ∧ ∀ p, p ≠ Env.emptyPrefix → scopeOf frames p ≠ some ns) :=
+  mem_unresolvedOfElement_gen env s.top frames h t name ns
 
 /-- The no-namespace id and the XML namespace are never reported as unresolved. -/
 theorem C09_unresolved_real (env : Env) (t : Tree) (path : Path) (l : List Nat)
@@ -468,6 +433,96 @@ theorem C09_inherited_iff (env : Env) (t : Tree) (path : Path) (sub : Tree) (l :
   simp only [unresolvedNamespaces, hs, Option.map_some, Option.some.injEq, exists_eq_left']
   rw [C09_unresolved env t path sub _ hs hu (by simp [unresolvedNamespaces, hs]) ns]
 
+/-! ### Qualified names: the exact boundaries -/
+
+/-- The common case, no guard: an ELEMENT name in a real namespace.  `name_ref` / `full_name` /
+    `node_name_ref` answer `Ok(prefix)` exactly when some prefix — the default prefix included — is
+    bound to the namespace in the node's scope, the reported prefix then resolves (by the rule for
+    element names) to the name's namespace, and otherwise the answer is `MissingPrefix(ns)`. -/
+theorem C09_fullname_element_real (env : Env) (chain : List Tree) (name : Nat)
+    (hns : env.nsOfName name ≠ Env.noNamespace) :
+    (∀ p, nameRefChain env chain name = .ok p →
+      resolveQName chain false p = some (env.nsOfName name)) ∧
+    ((∃ p, nameRefChain env chain name = .ok p) ↔
+      ∃ q, scopeSpecChain chain q = some (env.nsOfName name)) ∧
+    ((∀ q, scopeSpecChain chain q ≠ some (env.nsOfName name)) →
+      nameRefChain env chain name = .error (.missingPrefix (env.nsOfName name))) := by
+  have hb : (env.nsOfName name != Env.noNamespace) = true := by simpa [bne] using hns
+  have hsound : ∀ p, nameRefChain env chain name = .ok p →
+      scopeSpecChain chain p = some (env.nsOfName name) := by
+    intro p h
+    rcases nameRefChain_ok h with ⟨h0, _⟩ | ⟨_, hs⟩
+    · exact absurd h0 hns
+    · exact hs
+  have hcomplete : (∃ q, scopeSpecChain chain q = some (env.nsOfName name)) →
+      ∃ p, nameRefChain env chain name = .ok p := by
+    rintro ⟨q, hq⟩
+    obtain ⟨p, hp⟩ := pfnDecls_complete (env.nsOfName name) (allDecls chain) []
+      ⟨q, by simp, scopeSpecChain_some_lookup hq⟩
+    exact ⟨p, by simp [nameRefChain, hb, prefixForNamespaceChain, pfnChain_eq, hp, pfnResult]⟩
+  refine ⟨fun p h => C09_fullname_element_partial env chain name p h (fun h0 => absurd h0 hns),
+    ⟨fun ⟨p, h⟩ => ⟨p, hsound p h⟩, hcomplete⟩, fun hall => ?_⟩
+  unfold nameRefChain
+  simp only [hb, ↓reduceIte]
+  cases hp : prefixForNamespaceChain chain (env.nsOfName name) with
+  | none => rfl
+  | some p =>
+    exfalso
+    exact hall p (hsound p (by simp [nameRefChain, hb, hp]))
+
+/-- Elements, exact boundary of the open finding: an `Ok(prefix)` resolves back to the name's
+    namespace iff it is NOT the case that the name is in no namespace while a default namespace
+    is in scope. -/
+theorem C09_fullname_element_iff (env : Env) (chain : List Tree) (name p : Nat)
+    (h : nameRefChain env chain name = .ok p) :
+    resolveQName chain false p = some (env.nsOfName name) ↔
+      ¬ (env.nsOfName name = Env.noNamespace ∧ ∃ d, scopeSpecChain chain Env.emptyPrefix = some d) := by
+  constructor
+  · rintro hr ⟨h0, d, hd⟩
+    rcases nameRefChain_ok h with ⟨_, rfl⟩ | ⟨hne, _⟩
+    · simp only [resolveQName, beq_self_eq_true, ↓reduceIte, Bool.false_eq_true, hd, Option.getD_some,
+        h0, Option.some.injEq] at hr
+      exact scopeSpecChain_empty_ne chain (hr ▸ hd)
+    · exact hne h0
+  · intro hg
+    apply C09_fullname_element_partial env chain name p h
+    intro h0
+    cases hd : scopeSpecChain chain Env.emptyPrefix with
+    | none => rfl
+    | some d => exact absurd ⟨h0, d, hd⟩ hg
+
+/-- Attributes, exact boundary of the open finding: an `Ok(prefix)` resolves back to the name's
+    namespace iff it is NOT the case that the name is in a real namespace and the EMPTY prefix is
+    reported (which happens when `prefix_for_namespace` meets the default declaration of that
+    namespace before any other unshadowed prefix bound to it). -/
+theorem C09_fullname_attribute_iff (env : Env) (chain : List Tree) (name p : Nat)
+    (h : nameRefChain env chain name = .ok p) :
+    resolveQName chain true p = some (env.nsOfName name) ↔
+      ¬ (env.nsOfName name ≠ Env.noNamespace ∧ p = Env.emptyPrefix) := by
+  constructor
+  · rintro hr ⟨hne, rfl⟩
+    simp only [resolveQName, beq_self_eq_true, ↓reduceIte, Option.some.injEq] at hr
+    exact hne hr.symm
+  · intro hg
+    rcases nameRefChain_ok h with ⟨h0, rfl⟩ | ⟨hne, hs⟩
+    · simp [resolveQName, h0]
+    · have hp : p ≠ Env.emptyPrefix := fun hp => hg ⟨hne, hp⟩
+      have : (p == Env.emptyPrefix) = false := by simpa using hp
+      simp [resolveQName, this, hs]
+
+/-- The guard of `C09_fullname_attribute_partial` (the namespace is not the default namespace in
+    scope) is sufficient but NOT necessary: in `<a xmlns:p="A" xmlns="A" A:x=""/>` the walk meets
+    `p` first and the attribute is reported correctly as `p:x` although `A` is the default
+    namespace.  The exact boundary is `C09_fullname_attribute_iff`. -/
+theorem C09_fullname_attribute_guard_not_needed :
+    ∃ (env : Env) (chain : List Tree) (name p : Nat), nameRefChain env chain name = .ok p ∧
+      scopeSpecChain chain Env.emptyPrefix = some (env.nsOfName name) ∧
+      resolveQName chain true p = some (env.nsOfName name) :=
+  ⟨{ namespaces := [], prefixes := [[]], names := [(['x'], 2)] },
+    [.node (.attribute 0 []) [],
+     .node (.element 0) [.node (.namespace 2 2) [], .node (.namespace 0 2) [], .node (.attribute 0 []) []]],
+    0, 2, by rfl, by decide, by decide⟩
+
 /-! ### Non-vacuity -/
 
 /-- `<a xmlns:p="A" xmlns:q="B"><b xmlns:p="C"/></a>` at `b`, namespace `B`: found past the
@@ -503,5 +558,9 @@ example : inheritedPrefixes c09UnresEnv c09UnresTree [1] = some [(2, 2)] := by d
 /-- Two prefixes and the default bound to the needed namespace: all three are inherited. -/
 example : inheritedPrefixes c09UnresEnv (.node (.element 5) [.node (.namespace 2 2) [], .node (.namespace 3 2) [],
     .node (.namespace 0 2) [], .node (.element 0) []]) [3] = some [(2, 2), (3, 2), (0, 2)] := by decide
+
+/-- `<a xmlns:p="A"><A:b/></a>`: element `b` in `A`, bound only by prefix: `Ok(p)`; unbound `B`: error. -/
+example : nameRefChain c09UnresEnv [.node (.element 0) [], c09UnresTree] 0 = .ok 2 := by rfl
+example : nameRefChain c09UnresEnv [.node (.element 1) [], c09UnresTree] 1 = .error (.missingPrefix 3) := by rfl
 
 end XotModel.Props
